@@ -1,5 +1,5 @@
 (** C06 — every documented write-barrier path makes adoption safe in every phase. *)
-From GA Require Import Model.Spec Proofs.Inv Proofs.InvOps Proofs.InvMicroOps Proofs.InvBarrier Proofs.InvWorld Proofs.Safety.
+From GA Require Import Model.Spec Proofs.HeapLemmas Proofs.Inv Proofs.InvOps Proofs.InvMicroOps Proofs.InvBarrier Proofs.InvWorld Proofs.Safety.
 Local Open Scope nat_scope.
 
 (** Every micro-op of the mutator VM — in particular every adoption path: Gc::write / unlock and the
@@ -44,3 +44,41 @@ Proof.
   intros c x xo I G L. destruct (forward_barrier_inv c None x xo I G L ltac:(discriminate)) as [A [_ [B _]]]. auto.
 Qed.
 Print Assumptions C06_child_barrier.
+
+(** Objects born with contents ([Gc::new] of a value whose fields already hold pointers, [MAllocWith]):
+    no barrier is involved -- the newborn is white, so no black object points at an unmarked one through
+    it -- and the invariant, hence [C06_adopted_survives], covers whatever it was born holding: every
+    pointer it holds was in the callback's hands (a register), i.e. strongly (weakly) usable. *)
+Theorem C06_born_with_contents :
+  forall w ar k r kd cs ws ar' hs out,
+    Inv None (actx ar) -> cb_ok k (actx ar) -> micro w ar k (MAllocWith r kd cs ws) = (ar', hs, out) ->
+    Inv None (actx ar')
+    /\ forall i o, out = [Z.of_nat i] -> get (actx ar') i = Some o ->
+         col o = White /\ live o = true
+         /\ (forall t, In (Some t) (strong o) -> exists r', rg (actx ar) r' = Some t)
+         /\ (forall t, In (Some t) (weak o) -> exists r', wrg (actx ar) r' = Some t).
+Proof.
+  intros w ar k r kd cs ws ar' hs out I CB E. split; [exact (proj1 (micro_inv _ _ _ _ _ _ _ I CB E))|].
+  destruct ar as [c uid sets]. cbn [micro actx auid asets] in *.
+  match type of E with context [init_obj ?kk ?ss ?ww] => destruct (init_obj kk ss ww) as [o0|] eqn:IO end.
+  2:{ inversion E; subst. intros i o H. unfold SKIP in H. inversion H as [HI]. lia. }
+  destruct (init_obj_props _ _ _ _ IO) as [P1 [P2 [_ [_ [_ [P4 P5]]]]]].
+  inversion E; subst; clear E. cbn [actx]. intros i o H G. inversion H as [HI]. apply Nat2Z.inj in HI. subst i.
+  unfold get in G. cbn [heap set_rg set_regs set_met set_lists set_heap] in G. rewrite hget_app_new in G. inversion G; subst o.
+  repeat split; auto.
+  - intros t Ht. apply P4 in Ht. apply in_map_rg in Ht. exact Ht.
+  - intros t Ht. apply P5 in Ht. apply in_map_wrg in Ht. exact Ht.
+Qed.
+Print Assumptions C06_born_with_contents.
+
+(** non-vacuity: while the arena is fully marked, a wrapper is born around a fresh (white) child and adopted by
+    the (black) root object through [Gc::write]; the two full cycles that follow destruct neither. *)
+Example C06_born_with_contents_example :
+  let ops := [OBegin 0 CNew; OMicro (MAlloc 0 KNode 2 0); OEnd; OCollect 0 HFinishMarking None;
+              OBegin 0 CMutate; OMicro (MLoadRoot 0 0); OMicro (MAlloc 4 KNode 1 0);
+              OMicro (MAllocWith 3 KNode [Some 4; None; None] [None; None]); OMicro (MClear 4);
+              OMicro (MStore 0 0 (Some 3)); OMicro (MClear 3); OEnd;
+              OCollect 0 HFinishCycle None; OCollect 0 HFinishCycle None] in
+  flat_map (fun wr => r_events (snd wr)) (run_trace world_init ops) = []
+  /\ exists ar, get_arena (run world_init ops) 0 = Some ar /\ match get (actx ar) 2 with Some o => Some (strong o) | None => None end = Some [Some 1; None; None].
+Proof. vm_compute. split; [reflexivity|]. eexists. split; reflexivity. Qed.
